@@ -27,11 +27,23 @@ SUITES["strategy"] = dict(
     batches={"quick": 4, "thorough": 16}, timeout={"quick": 300, "thorough": 3000},
 )
 
+SUITES["lbseq"] = dict(
+    test="TestLbSeq", coq_module="Cases.LBCase", case_type="lb_case", eval="eval_lb_case",
+    cols=["diff_begin", "diff_end", "diff_admin", "diff_metrics",
+          "mon_c02_disp", "mon_c02_503", "cls_c02_rr3", "cls_c02_lc", "cls_c02_stale",
+          "mon_c04_list", "mon_c04_only_after", "mon_c04_mirror", "mon_c07_lb", "mon_c09_gate",
+          "mon_c11", "cls_readd_draining", "mon_c13_total", "mon_c13_partition", "mon_c13_backend", "mon_c13_gauge",
+          "cls_seen_nobackend", "cls_seen_abort", "mon_c03_recover",
+          "nt_c02", "nt_c04", "nt_c07", "nt_c09", "nt_c11", "nt_c13", "nt_c03"],
+    batches={"quick": 6, "thorough": 16}, timeout={"quick": 400, "thorough": 3000},
+)
+
 PROPS = {
     "C09": dict(
         props_file="Props/C09.v",
         suites=[dict(suite="limiter", corr=["diff"], monitors=["mon_window", "mon_burst"],
-                     classifiers={"cleanup-regrant": "cls_cleanup_regrant"}, nontrivial="nt_c09")],
+                     classifiers={"cleanup-regrant": "cls_cleanup_regrant"}, nontrivial="nt_c09"),
+                dict(suite="lbseq", corr=["diff_begin"], monitors=["mon_c09_gate"], classifiers={}, nontrivial="nt_c09")],
         rule="limiter histories under virtual time (corpus + seeded structured random: 1-4 clients, max 1..5, "
              "11 refill rates, gaps on refill/clean-up/1h boundaries +-1ns, concurrent bursts of 2..64 callers); "
              "non-trivial = at least one denial and (a gap of >= one refill period or a clean-up run); "
@@ -53,7 +65,8 @@ PROPS = {
 PROPS["C07"] = dict(
     props_file="Props/C07.v",
     suites=[dict(suite="breaker", corr=["diff"], monitors=["mon_block", "mon_trials", "mon_trip", "mon_close", "mon_reopen"],
-                 classifiers={}, nontrivial="nt_c07")],
+                 classifiers={}, nontrivial="nt_c07"),
+            dict(suite="lbseq", corr=["diff_begin"], monitors=["mon_c07_lb"], classifiers={}, nontrivial="nt_c07")],
     rule="breaker histories under virtual time: overlapping Execute calls (begin/end separately), outcomes ok/err/panic, "
          "gaps on interval/timeout boundaries +-1ns, thresholds and max_requests in 1..3; non-trivial = the history reaches OPEN; "
          "distinct = by hash of the full case term",
@@ -118,6 +131,86 @@ PROPS["C05"] = dict(
                "exercised with 2..64 goroutines (exact per-backend totals), not proved beyond the atomic-step argument.",
     trusted_base=["Model/Strategy.v (hand-written; tied by the strategy suite)"],
     assumptions=["counter window does not cross 2^64", "weights >= 1 (AddBackend clamp, decided with the lbseq suite)"],
+)
+
+
+_LB_NOTE = ("Trusted: Coq kernel, harness, hand model Model/LB.v. httputil.ReverseProxy and net/http are represented by the "
+            "outcome classes of the scripted transport (status incl. the default error handler's 502, abort mid-body). "
+            "url.Parse and net.SplitHostPort are oracles (the harness passes Go's answers).")
+_LB_TRUST = ["model Model/LB.v (+Strategy/Limiter/Breaker/ClientIP) of internal/loadbalancer/loadbalancer.go (hand-written; tied by the lbseq suite)",
+                  "harness: scripted in-memory RoundTrippers per backend, testing/synctest virtual clock, request context carrying http.ServerContextKey"]
+
+PROPS["C02"] = dict(
+    props_file="Props/C02.v",
+    suites=[dict(suite="lbseq", corr=["diff_begin"], monitors=["mon_c02_disp", "mon_c02_503"],
+                 classifiers={}, nontrivial="nt_c02")],
+    rule="balancer histories under virtual time: 5 strategies x pools 1..5 (+admin add/remove), passive ejections by 5xx/502, "
+         "windows straddled by +-1 ns gaps, overlapping requests held open by the scripted transports; non-trivial = the pool has "
+         ">= 2 backends and at least one is inside its window at a dispatch; distinct = by case hash",
+    level_text="Theorems: the dispatch gate IsBackendHealthy decides exactly 'outside the window'; each of the five strategies returns "
+               "a backend marked eligible whenever the pool has one and 'none' only if none is marked (all pool sizes, counters, "
+               "weights, in-flight vectors, client strings). PARTIAL: the composition with the lazy expiry of the whole pool into "
+               "'503 => every backend inside its window' is monitored on every implementation trace, not yet proved. Tie: same "
+               "histories on the real LoadBalancer; dispatch decisions compared request by request.",
+    level_note=_LB_NOTE, trusted_base=_LB_TRUST,
+    assumptions=["virtual time non-decreasing", "pool below 2^31 backends, in-flight counts below 2^31-1"],
+)
+PROPS["C04"] = dict(
+    props_file="Props/C04.v",
+    suites=[dict(suite="lbseq", corr=["diff_begin", "diff_admin"], monitors=["mon_c04_list", "mon_c04_only_after", "mon_c04_mirror", "mon_c02_disp", "mon_c02_503"],
+                 classifiers={}, nontrivial="nt_c04")],
+    rule="balancer histories with failed (5xx / unreachable) and good responses per backend, thresholds 1..3, windows 1/5/30 s straddled "
+         "by +-1 ns, all five strategies, List and metrics snapshots; non-trivial = the history contains a failed response; distinct = by case hash",
+    level_text="Theorems: passive counter semantics (ejection exactly when the per-name count reaches the threshold, reset then, never "
+               "touched by successes), ejection opens [now, now+timeout], the gate is exactly the window (no traffic inside, eligible as "
+               "soon as it has elapsed), a successful probe never ejects. Reporting (List / metrics mirror never show an ejected backend "
+               "healthy) and recovery under every strategy are monitored on implementation traces. Tie: lbseq histories.",
+    level_note=_LB_NOTE + " Active probing is covered by the probe model only (probe ticks are not yet driven in the harness); the expiry-vs-ejection race is not explored at step level.",
+    trusted_base=_LB_TRUST, assumptions=["virtual time non-decreasing"],
+)
+PROPS["C11"] = dict(
+    props_file="Props/C11.v",
+    suites=[dict(suite="lbseq", corr=["diff_admin", "diff_begin"], monitors=["mon_c11", "mon_c02_disp"],
+                 classifiers={}, nontrivial="nt_c11")],
+    rule="balancer histories with add (valid / unparsable address / duplicate name / weight 0..4), remove (present / absent names), "
+         "set_strategy (5 valid + invalid names) interleaved with requests in flight, List before and after every admin operation; "
+         "non-trivial = an admin op fails, repeats a name, removes an absent name or overlaps traffic; distinct = by case hash",
+    level_text="Theorems: successful add => listed last, healthy, idle, weight max(1,w); add fails exactly for an unparsable address or "
+               "a registered name and then changes nothing; unknown strategy changes nothing, a switch keeps the same backends in order "
+               "with weights, health and in-flight counts; the conservation law survives every admin step (requests in flight complete "
+               "and stay accounted). Admin operations are single atomic steps of the model (the balancer lock spans them), so every "
+               "interleaving with Begin/End is a history. Tie: lbseq; the HTTP admin API itself is decided under C10.",
+    level_note=_LB_NOTE + " Linearizability under truly concurrent admin actors rests on the RWMutex spanning each operation (not explored at step level here).",
+    trusted_base=_LB_TRUST, assumptions=[],
+)
+PROPS["C13"] = dict(
+    props_file="Props/C13.v",
+    suites=[dict(suite="lbseq", corr=["diff_metrics"], monitors=["mon_c13_total", "mon_c13_partition", "mon_c13_backend", "mon_c13_gauge"],
+                 classifiers={"gauge-stale-after-readd-while-draining": "cls_readd_draining"}, nontrivial="nt_c13")],
+    rule="balancer histories mixing ok / 4xx / 5xx / unreachable / aborted-mid-body / rate-limited / breaker-rejected / "
+         "no-healthy-backend requests with overlaps, Metrics snapshots (drained first in most of them); the monitors are computed from the "
+         "trace alone (own tallies of begins, dispatches and ends per name); non-trivial = >= 2 quiescent snapshots; distinct = by case hash",
+    level_text="Theorems for every configuration and history of the composite model: conservation total = successful + failed + "
+               "rate_limited + in-flight (hence the partition at quiescence) and total = number of requests. Per-backend totals and gauges "
+               "are monitored from the trace's own tallies on every implementation run. Tie: the real /metrics snapshot structure "
+               "(MetricsCollector.GetMetrics) compared field by field with the model.",
+    level_note=_LB_NOTE + " uint64/int32 counter widths and the 1000-name cap are out of scope.",
+    trusted_base=_LB_TRUST, assumptions=["fewer than 1000 distinct backend names"],
+)
+PROPS["C03"] = dict(
+    props_file="Props/C03.v",
+    suites=[dict(suite="lbseq", corr=["diff_begin", "diff_end"], monitors=["mon_c03_recover"],
+                 classifiers={}, nontrivial="nt_c03")],
+    rule="every lbseq history (faults: 5xx, transport error, abort mid-body, with breaker / limiter / passive checks on or off, all "
+         "strategies, overlapping) is followed by the recovery script: end everything in flight, wait past every timer, add a fresh "
+         "backend, three well-behaved requests that must be dispatched and answered 200, final metrics with zero gauges; "
+         "non-trivial = >= 1 fault before the script; distinct = by case hash",
+    level_text="PARTIAL. Theorems: the step function is total (no stuck step) and the accounting releases every request whatever its "
+               "outcome (conservation law, End always removes the request). The recovery claim is decided on implementation traces by the "
+               "appended script; the breaker-callback deadlock regression runs under a real-time watchdog. Timeouts, goroutine/fd leaks "
+               "and panic recovery in net/http are runtime behaviour the model cannot exhibit.",
+    level_note=_LB_NOTE, trusted_base=_LB_TRUST,
+    assumptions=["faults reach the balancer as status / transport error / abort (validated for the in-memory transport only)"],
 )
 
 # properties not claimed, each with a one-line reason (kept current as checks are added)
